@@ -325,44 +325,60 @@ def main_check(pid, tier):
         if k is not None:
             kf_hits.setdefault(k["id"], {"count": 0, "what": k.get("what", ""), "example_index": i})["count"] += 1
         else:
-            new.setdefault(vclass(v), (i, v))
+            new.setdefault(vclass(v), []).append((i, v))
     for kid, h in sorted(kf_hits.items()):
         sys.stdout.write("KNOWN-FINDING: property=%s %s (%s; %d occurrences, e.g. run index %d)\n" % (pid, kid, h["what"], h["count"], h["example_index"]))
     status = 0
     reported = 0
-    for cls, (i, v) in sorted(new.items())[:3]:
-        scn = v.get("scenario") or mod.generate(gen.rng_for(seed, pid, i), tier)
-        small, used = minimise(mod, scn, cls, budget=int(os.environ.get("VERIF_SHRINK", "400")))
-        classes, res = execute_classes(mod, small)
-        os.makedirs(os.path.join(VERIF, "replays"), exist_ok=True)
-        path = os.path.join(VERIF, "replays", "%s-%d-%d.json" % (pid, seed, i))
-        vv = [x for x in res.get("violations") or [] if vclass(x) == cls]
-        with open(path, "w") as f:
-            json.dump(
-                {
-                    "property": pid,
-                    "seed": seed,
-                    "index": i,
-                    "violation_class": list(cls),
-                    "violation": {k: x for k, x in (vv[0] if vv else v).items() if k != "scenario"},
-                    "digest": res.get("digest"),
-                    "shrink_executions": used,
-                    "scenario": small,
-                },
-                f,
-                indent=1,
-                sort_keys=True,
-                default=str,
-            )
-        code, out = fresh_replay(pid, path)
-        if code == 1 and ("digest=%s " % res.get("digest")) in out:
-            sys.stdout.write("violation %s %s: %s\n" % (cls[0], cls[1], json.dumps((vv[0] if vv else v).get("detail"), default=str)[:800]))
-            sys.stdout.write("VIOLATION property=%s replay=%s\n" % (pid, path))
-            status = 1
-            reported += 1
-        else:
-            sys.stdout.write("HARNESS-ERROR violation %s did not reproduce in a fresh interpreter (exit %s)\n%s\n" % (cls, code, out[-2000:]))
-            status = max(status, 2)
+    unreproduced = []
+    # order: one class per rule first, so that different rules get reported before variants of the same rule
+    order = sorted(new.items(), key=lambda kv: (sum(1 for c in sorted(new) if c[0] == kv[0][0] and c < kv[0]), kv[0]))
+    for cls, examples in order:
+        if reported >= int(os.environ.get("VERIF_MAX_REPORTS", "4")):
+            break
+        ok = False
+        last = None
+        for i, v in examples[:6]:
+            scn = v.get("scenario") or mod.generate(gen.rng_for(seed, pid, i), tier)
+            small, used = minimise(mod, scn, cls, budget=int(os.environ.get("VERIF_SHRINK", "400")))
+            classes, res = execute_classes(mod, small)
+            os.makedirs(os.path.join(VERIF, "replays"), exist_ok=True)
+            path = os.path.join(VERIF, "replays", "%s-%d-%d.json" % (pid, seed, i))
+            vv = [x for x in res.get("violations") or [] if vclass(x) == cls]
+            with open(path, "w") as f:
+                json.dump(
+                    {
+                        "property": pid,
+                        "seed": seed,
+                        "index": i,
+                        "violation_class": list(cls),
+                        "violation": {k: x for k, x in (vv[0] if vv else v).items() if k != "scenario"},
+                        "digest": res.get("digest"),
+                        "shrink_executions": used,
+                        "scenario": small,
+                    },
+                    f,
+                    indent=1,
+                    sort_keys=True,
+                    default=str,
+                )
+            code, out = fresh_replay(pid, path)
+            last = (code, out)
+            if code == 1 and ("digest=%s " % res.get("digest")) in out:
+                sys.stdout.write("violation %s %s: %s\n" % (cls[0], cls[1], json.dumps((vv[0] if vv else v).get("detail"), default=str)[:800]))
+                sys.stdout.write("VIOLATION property=%s replay=%s\n" % (pid, path))
+                status = 1
+                reported += 1
+                ok = True
+                break
+        if not ok:
+            unreproduced.append((cls, last))
+    for cls, last in unreproduced:
+        # a deviation seen in a worker process that no single scenario reproduces in a fresh interpreter depends on what
+        # ran earlier in that process; it is reported as a harness-level problem only if nothing else was reported
+        sys.stdout.write("UNREPRODUCED %s %s: seen in the batch but not reproduced from a single scenario in a fresh interpreter (exit %s)\n" % (cls[0], cls[1], last[0] if last else None))
+        if status == 0:
+            status = 2
     if total["errors"]:
         for i, e in total["errors"][:5]:
             sys.stdout.write("HARNESS-ERROR run index %d: %s\n" % (i, e))
